@@ -3,6 +3,8 @@ package harness
 import (
 	"context"
 	"fmt"
+	"math"
+	"math/big"
 	"reflect"
 	"strings"
 	"time"
@@ -189,7 +191,16 @@ func c17Judge(mw, l int, m mocrelay.ClientMsg) (verdict int, rel string) {
 		}
 	case C17CreatedAtLower, C17CreatedAtUpper, C17EventCreatedAt:
 		if ev != nil {
-			off := int(ev.CreatedAt - c17Now())
+			// the distance from now, saturated (created_at may be any 64-bit integer)
+			off := 0
+			switch d := new(big.Int).Sub(big.NewInt(ev.CreatedAt), big.NewInt(c17Now())); {
+			case d.Cmp(big.NewInt(1<<40)) > 0:
+				off = 1 << 40
+			case d.Cmp(big.NewInt(-(1 << 40))) < 0:
+				off = -(1 << 40)
+			default:
+				off = int(d.Int64())
+			}
 			lower := func() int { // reject iff now - created_at > l  <=>  off < -l
 				switch {
 				case off <= -l-C17Margin:
@@ -290,7 +301,7 @@ func C17ProbeSizes(mw, l, kind int) int {
 		case C17MaxEventTags, C17MaxContentLength:
 			return l + 3
 		case C17CreatedAtLower, C17CreatedAtUpper, C17EventCreatedAt:
-			return 2*l + 5 // offsets -(l+2)..+(l+2)
+			return 2*l + 5 + 3 // offsets -(l+2)..+(l+2), then created_at = 0, the smallest and the largest integer
 		case C17AllowFilter, C17DenyFilter:
 			return 2
 		}
@@ -352,6 +363,11 @@ func c17Probe(mw, l, kind, size, which int) mocrelay.ClientMsg {
 		case C17MaxContentLength:
 			return EventMsg(c17Event(evID, 1, 0, 0, size))
 		case C17CreatedAtLower, C17CreatedAtUpper, C17EventCreatedAt:
+			if size >= 2*l+5 {
+				ev := c17Event(evID, 1, 0, 1, 1)
+				ev.CreatedAt = []int64{0, math.MinInt64, math.MaxInt64}[size-(2*l+5)]
+				return EventMsg(ev)
+			}
 			return EventMsg(c17Event(evID, 1, int64(size-(l+2)), 1, 1))
 		case C17AllowFilter, C17DenyFilter:
 			if size == 0 {
